@@ -5,6 +5,8 @@ VERIF = os.path.abspath(os.path.join(os.path.dirname(os.path.abspath(__file__)),
 SPEC = os.path.join(VERIF, 'spec')
 HARNESS = os.path.join(VERIF, 'harness')
 REPO = os.environ.get('VERIF_REPO', '/repo')
+# evidence/ and replays/ go to /verif unless a seeded-change run redirects them (bin/mutmatrix)
+OUTDIR = os.environ.get('VERIF_OUTDIR') or os.path.dirname(os.path.dirname(os.path.abspath(__file__)))
 NCPU = os.cpu_count() or 4
 
 GOENV = dict(os.environ, GOFLAGS='-mod=mod', GOPROXY='off', GOSUMDB='off', GOTOOLCHAIN='local')
@@ -22,7 +24,7 @@ def log(*a):
 # known findings
 
 def load_findings():
-    p = os.path.join(VERIF, 'known_findings.json')
+    p = os.environ.get('VERIF_KF') or os.path.join(VERIF, 'known_findings.json')   # (VERIF_KF: used while a fix is being prepared in a scratch worktree)
     if not os.path.exists(p):
         return []
     return json.load(open(p))['findings']
@@ -320,7 +322,10 @@ class Verdict:
                                      'transitions': stats.get('generated', 0), 'wall_s': stats.get('wall_s')})
 
     def record_violation(self, case, result, engine='replay'):
-        d = os.path.join(VERIF, 'replays')
+        if len(self.violations) >= int(os.environ.get("VERIF_MAXREPORT", "25")):
+            self.violations.append('(more)')        # counted, not written out
+            return
+        d = os.path.join(OUTDIR, 'replays')
         os.makedirs(d, exist_ok=True)
         h = hashlib.sha1(json.dumps(case, sort_keys=True).encode()).hexdigest()[:10]
         path = os.path.join(d, '%s-%s-%s.json' % (self.prop, self.seed, h))
@@ -393,8 +398,8 @@ class Verdict:
         ev = {'property_id': self.prop, 'tier': self.tier, 'seed': self.seed, 'level': level,
               'coverage': cov, 'assumptions': self.assumptions,
               'wall_s': round(time.time() - self.t0, 2), 'violations': len(self.violations)}
-        os.makedirs(os.path.join(VERIF, 'evidence'), exist_ok=True)
-        json.dump(ev, open(os.path.join(VERIF, 'evidence', self.prop + '.json'), 'w'), indent=1)
+        os.makedirs(os.path.join(OUTDIR, 'evidence'), exist_ok=True)
+        json.dump(ev, open(os.path.join(OUTDIR, 'evidence', self.prop + '.json'), 'w'), indent=1)
         if self.violations:
             return 1
         if self.inconclusive:
